@@ -360,6 +360,7 @@ module Mg = struct
       | "cleararch" :: pals -> Stdlib.List.iter pal_tok pals
       | ("assign" | "assignid" | "remove" | "removeid") :: _ :: _ :: p :: _ -> ignore (reg_pal (int_of_string p))
       | "jobact" :: _ :: _ :: _ :: p :: _ -> ignore (reg_pal (int_of_string p))
+      | "runtyped" :: k :: _ -> Stdlib.List.iter (fun p -> ignore (reg_pal p)) (Stdlib.List.nth [[0]; [0; 1]; [2; 4]; [2; 1]] (int_of_string k))
       | "build" :: _ :: _ :: rest ->
           let rec go mode = function
             | [] -> ()
@@ -390,6 +391,7 @@ module Mg = struct
       | _ -> ()) lines;
     let st = ref (init (nat_of_int !maxthr) cis) in
     let jobs : (job * bool) array ref = ref [||] in      (* job, require_entity *)
+    let typed_jobs : job option array ref = ref (Array.make 4 None) in
     let job_acts = ref [] in                             (* pending callback actions of the next runjob *)
     let workers = ref 0 and cap = ref 16384 in
     Stdlib.List.iter (fun l -> match split_ws l with
@@ -515,6 +517,24 @@ module Mg = struct
                   finish s' (String.concat " " (("last=" ^ string_of_int (int_of_n last)) :: Stdlib.List.map arr_str arrays))
               | Ok _ -> dead := true
               | Err e -> Printf.printf "ERR %s\n" (err_name e); dead := true)
+         | "runtyped", k :: mode :: rest ->
+             (* the typed jobs of the driver: (palette, is_const, is_required) per argument *)
+             let k = int_of_string k in
+             let spec = Stdlib.List.nth [ [(0, false, true)]; [(0, true, true); (1, true, false)]; [(2, false, true); (4, true, true)]; [(2, true, false); (1, false, true)] ] k in
+             let reqs = Stdlib.List.map (fun (p, cst, req) -> ((nat_of_int (reg_pal p), cst), req)) spec in
+             let jb = (match !typed_jobs.(k) with Some j -> j | None -> { j_reqs = reqs; j_check = n_of_int 0; j_last = n_of_int 4294967295 }) in
+             let tov = (match rest with t :: _ -> int_of_string t | [] -> 0) in
+             (match step !st (ORunJob (jb, mode = "1", nat_of_int tov, nat_of_int !workers, nat_of_int !cap, [])) with
+              | Ok (s', RJob (last, arrays)) ->
+                  !typed_jobs.(k) <- Some { jb with j_last = last };
+                  let ent_str task idx (h, cells) =
+                    Printf.sprintf "t%d:n%d:%s%s" task idx (hname h)
+                      (String.concat "" (Stdlib.List.map (fun c -> match c with None -> "/null" | Some v -> "/" ^ cell_str v) cells)) in
+                  let strs = Stdlib.List.concat (Stdlib.List.map (fun ((task, idx), ents) ->
+                      Stdlib.List.mapi (fun i e -> ent_str (int_of_nat task) (int_of_nat idx + i) e) ents) arrays) in
+                  finish s' (String.concat " " (("last=" ^ string_of_int (int_of_n last)) :: strs))
+              | Ok _ -> dead := true
+              | Err e -> Printf.printf "ERR %s\n" (err_name e); dead := true)
          | "teardown", _ ->
              (match step !st OTeardown with
               | Ok (s', _) -> print_endline "R";
@@ -594,7 +614,7 @@ module MgS = struct
         let nk h = nat_of_int (parse_k h) in
         (match opname, args with
          | ("reg" | "regs" | "maxthreads" | "threads" | "chunkcap"), _ -> ()
-         | ("arm" | "disarm" | "teardown" | "mkjob" | "runjob" | "jobact" | "verchunk" | "chunkfn" | "getconst" | "getmut" | "has" | "markdirty" | "valid" | "archof" | "getshared"), _ -> dump !st
+         | ("arm" | "disarm" | "teardown" | "mkjob" | "runjob" | "runtyped" | "jobact" | "verchunk" | "chunkfn" | "getconst" | "getmut" | "has" | "markdirty" | "valid" | "archof" | "getshared"), _ -> dump !st
          | ("create" | "createarch"), tid :: pals -> let (m, sids) = Mg.parse_pals pals in
              apply (XoCreate (ni tid, n_of_int m, Stdlib.List.map nat_of_int sids, opname = "createarch"))
          | "destroy", [tid; h] -> apply (XoDestroy (ni tid, nk h))
